@@ -21,6 +21,11 @@ from pathlib import Path
 
 from vlib import vloop, fakes, world
 
+# vlib.fakes.FakeWriter lacks part of the transport API real code may query (local work-around, vlib is not mine):
+# this fake never holds data back, so its write buffer is always empty
+if not hasattr(fakes.FakeWriter, 'get_write_buffer_size'):
+    fakes.FakeWriter.get_write_buffer_size = lambda self: 0
+
 GRANT_UNLIMITED = 8192
 GRANT_LIMITED = 128
 
@@ -81,6 +86,9 @@ class BackpressureWriter(fakes.FakeWriter):
                 if not w.done():
                     w.set_result(None)
             self._waiters.clear()
+
+    def get_write_buffer_size(self):
+        return self.queued
 
     async def drain(self):
         if self.ep.drain_error is not None:
@@ -158,6 +166,8 @@ class Side:
         ep = fakes.Endpoint(self.W.net, label=typ)
         if backpressure is not None:
             ep.writer = BackpressureWriter(ep, ep.writer._peername, ep.writer._sockname, backpressure)
+        else:
+            ep.writer.get_write_buffer_size = lambda: 0     # transport API: nothing is ever held back by this fake
         c = PeerConnection('10.0.0.9', 40000, self.client.network, connection_type=typ, incoming=True,
                            username=username)
         c._reader, c._writer = ep.reader, ep.writer
@@ -169,12 +179,24 @@ class Side:
         return RateLimiter.create_limiter(kbps)
 
     # -- downloads ----------------------------------------------------------------------------
-    def new_download(self, local0: bytes | None, bt0: int | None = None, listener: str | None = None):
+    def new_download(self, local0: bytes | None, bt0: int | None = None, listener: str | None = None,
+                     name: str | None = None, existing=None):
         """A download as the API creates it (QUEUED); local0 != None: an existing local file (as a
         transfer restored from the cache would have)."""
         from aioslsk.transfer.model import TransferDirection
         self.n += 1
-        name = f'd{self.n}\\f{self.n}.bin'
+        self.precreated = []
+        if name is not None:
+            # the remote file name as the peer shares it, and files that already are in the download directory
+            # (earlier downloads of equally named files): the new download must get a file of its own
+            ddir = Path(self.client.settings.shares.download)
+            for fname, content in (existing or []):
+                q = ddir / fname
+                q.write_bytes(content)
+                self.precreated.append((q, content))
+            name = f'd{self.n}\\{name}'
+        else:
+            name = f'd{self.n}\\f{self.n}.bin'
         tr = self.W.run(self.mgr.download('bob', name))
         if local0 is not None:
             p = self.W.tmp / f'pre{self.n}.bin'
@@ -205,6 +227,12 @@ class Side:
                 Path(tr.local_path).unlink()
             except OSError:
                 pass
+        for q, _ in getattr(self, 'precreated', []):
+            try:
+                q.unlink()
+            except OSError:
+                pass
+        self.precreated = []
 
     def download_attempt(self, tr, announced, sender, kbps=0, send_ok=True, ticket=None):
         """One attempt on transfer ``tr``.  ``sender(offset) -> (segments, term)`` scripts the other
@@ -385,7 +413,7 @@ class Side:
 
     # -- uploads ------------------------------------------------------------------------------
     def upload_attempt(self, src: bytes, filesize: int, offset_bytes: bytes | None, kbps=0, cut=None,
-                       peer_closes=True, close_kind='eof', osplit=None, msg_mode=None, backpressure=None):
+                       peer_closes=True, close_kind='eof', osplit=None, msg_mode=None, backpressure=None, cut_mode='error'):
         """One upload attempt.  offset_bytes: what the peer sends as offset (8 bytes; fewer or None:
         the connection ends before the offset is complete).  cut=k: the first send that starts when
         >= k file bytes were written fails.  Returns the observation dict."""
@@ -415,7 +443,18 @@ class Side:
         def on_data(d):
             total = len(fep.written) - 4
             if cut is not None and total >= cut:
-                fep.write_error = ConnectionResetError('reset by peer')
+                if cut_mode == 'lost':
+                    # as asyncio behaves after connection_lost: write() silently drops the data, only drain()
+                    # (and the reader) report the dead connection
+                    def lost():
+                        fep.writer._closing = True
+                        try:
+                            fep.reader.set_exception(ConnectionResetError('reset by peer'))
+                        except Exception:
+                            pass
+                    loop.call_soon(lost)      # right after this write went out
+                else:
+                    fep.write_error = ConnectionResetError('reset by peer')
         fep.on_data = on_data
         task = loop.create_task(self.mgr._initialize_upload(tr))
         loop.run_ready(60)
@@ -787,3 +826,67 @@ class Pair:
             self.net.uninstall()
             vloop.close_loop(self.loop)
             shutil.rmtree(self.tmp, ignore_errors=True)
+
+
+def run_limited_upload(kbps: int, size: int, seed: int = 0) -> list:
+    """For checks/c20.py: one real upload (TransferManager._initialize_upload -> _upload_file -> send_file /
+    send_data) of ``size`` bytes over a fake transport under virtual time, with the Network's upload limit set
+    to ``kbps`` KiB/s (0 = unlimited) through Network.set_upload_speed_limit; the file connection gets the
+    network's limiter from the real Network._finalize_peer_connection.  Returns the file bytes as they were
+    written to the transport: [(virtual seconds since the first write attempt started, nbytes), ...] (the
+    4-byte ticket is not included).  ``seed`` varies the content and the start time of the virtual clock."""
+    import struct as _struct
+    side = Side()
+    try:
+        side.loop.advance((seed % 7) * 0.37)
+        net = side.client.network
+        net.set_upload_speed_limit(kbps)
+        side.up_limiter = None
+        real_create = net.create_peer_connection
+
+        async def create_peer_connection(username, typ, **kw):
+            conn, ep = side.next_file_conn
+            net._finalize_peer_connection(conn)          # assigns the network's limiter
+            return conn
+        net.create_peer_connection = create_peer_connection
+        from aioslsk.transfer.model import Transfer, TransferDirection
+        from aioslsk.network.connection import PeerConnectionType
+        src = pat(seed % 251, size)
+        p = side.W.tmp / 'limited.bin'
+        p.write_bytes(src)
+        tr = Transfer('bob', 'u\\limited.bin', TransferDirection.UPLOAD)
+        tr.local_path = str(p)
+        tr.filesize = size
+
+        async def setup():
+            await side.mgr.add(tr)
+            await tr.state.queue()
+        side.W.run(setup())
+        fc, fep = side.conn(PeerConnectionType.FILE)
+        fc.incoming = False
+        side.next_file_conn = (fc, fep)
+        t0 = side.loop.time()
+        task = side.loop.create_task(side.mgr._initialize_upload(tr))
+        side.loop.run_ready(60)
+        fep.feed(_struct.pack('<Q', 0))
+        horizon = 600 + (size / (kbps * 1024) * 3 if kbps else 0)
+        side.loop.run_for(horizon)
+        if not task.done():
+            fep.feed_eof()
+            side.loop.run_for(60)
+        if not task.done():
+            task.cancel()
+            side.loop.run_ready(20)
+        out = []
+        skip = 4
+        for t, data in fep.write_log:
+            n = len(data)
+            if skip:
+                k = min(skip, n)
+                skip -= k
+                n -= k
+            if n:
+                out.append((t - t0, n))
+        return out
+    finally:
+        side.close()
